@@ -298,6 +298,15 @@ class CSSImportRule(cssrule.CSSRule):
 
             # all possible exceptions are ignored
             try:
+                # a sheet importing itself (directly or via other sheets)
+                # would be loaded again and again
+                ancestor = self.parentStyleSheet
+                while ancestor is not None:
+                    if ancestor.href == fullhref:
+                        raise OSError('Circular @import.')
+                    ownerRule = ancestor.ownerRule
+                    ancestor = ownerRule.parentStyleSheet if ownerRule else None
+
                 usedEncoding, enctype, cssText = self.parentStyleSheet._resolveImport(
                     fullhref
                 )
